@@ -362,6 +362,8 @@ func extractMain(args []string) {
 					fmt.Fprintf(&lean, "def %s : String := \"<missing>\"\n", id)
 				case "calls":
 					fmt.Fprintf(&lean, "def %s : List String := [\"<missing>\"]\n", id)
+				case "litcover":
+					fmt.Fprintf(&lean, "def %s : List (String × Bool) := [(\"<missing>\", false)]\n", id)
 				case "walk":
 					fmt.Fprintf(&lean, "def %s : List (String × String) := [(\"start\", \"<missing>\")]\n", id)
 				case "switch", "casebody":
@@ -401,6 +403,14 @@ func extractMain(args []string) {
 				}
 				fmt.Fprintf(&lean, "def %s : List (List String × String) := [%s]\n", id, strings.Join(rows, ", "))
 				facts[id] = bodies
+			case "litcover":
+				v := litcoverFact(fd, pi)
+				var rows []string
+				for _, r := range v {
+					rows = append(rows, fmt.Sprintf("(%s, %v)", leanString(r.Lit), r.Covered))
+				}
+				fmt.Fprintf(&lean, "def %s : List (String × Bool) := [%s]\n", id, strings.Join(rows, ", "))
+				facts[id] = v
 			case "walk":
 				v := walkFact(fset, fd, pi)
 				var rows []string
